@@ -51,11 +51,26 @@ class Bounds(object):
             if not pol:
                 op = {"<": ">=", "<=": ">", ">": "<=", ">=": "<", "==": "!=", "!=": "=="}[op]
             other = None
+            shift = 0
             if l == s:
                 other = c["a"][1]
             elif r == s:
                 other = c["a"][0]
                 op = {"<": ">", "<=": ">=", ">": "<", ">=": "<=", "==": "==", "!=": "!="}[op]
+            else:
+                # `s + k OP other` / `s - k OP other` with a literal k: the fact bounds s against other -/+ k
+                for side, oth, flip in ((c["a"][0], c["a"][1], False), (c["a"][1], c["a"][0], True)):
+                    sn = self.f.nodes.get(side)
+                    while sn is not None and sn["k"] == "cast":
+                        sn = self.f.nodes.get(sn["a"][0])
+                    if sn is not None and sn["k"] == "bin" and sn["op"] in ("+", "-") and expr_str(self.f, sn["a"][0]) == s \
+                            and (self.f.nodes.get(sn["a"][1]) or {}).get("k") == "int":
+                        k0 = self.f.nodes[sn["a"][1]]["v"]
+                        shift = -k0 if sn["op"] == "+" else k0
+                        other = oth
+                        if flip:
+                            op = {"<": ">", "<=": ">=", ">": "<", ">=": "<=", "==": "==", "!=": "!="}[op]
+                        break
             if other is None:
                 continue
             key = ("f", c["i"])
@@ -66,6 +81,9 @@ class Bounds(object):
                 olb, oub = self.interval(other)
             finally:
                 self._busy.discard(key)
+            if shift:
+                olb = olb + shift if olb is not None else None
+                oub = oub + shift if oub is not None else None
             if op == "<" and oub is not None:
                 ub = oub - 1 if ub is None else min(ub, oub - 1)
             elif op == "<=" and oub is not None:
